@@ -153,6 +153,17 @@ def bounded_cases(ctx: Ctx):
                     if rq is not None and c["engine"] == "numbagg":
                         c["engine"] = "numpy"
                     cases.append(c)
+    # a requested integer dtype WIDER than integer data, for the reductions that substitute a neutral element (engine='flox'
+    # writes it next to the data: F43) - every engine, eager and chunked
+    for func in ("nanmin", "nanmax", "min", "max"):
+        for dt in ("int8", "int16", "uint8", "uint32"):
+            for eng in (None, "numpy", "flox"):
+                for chunked in (False, True):
+                    c = dict(array=enc(np.array([3, 1, 2, 5], dtype=dt)), by=[enc(np.array([5, 15, 5, 15]))], func=func, dtype="int64", engine=eng)
+                    if chunked:
+                        c["chunks"] = [[2, 2]]
+                        c["method"] = "map-reduce"
+                    cases.append(c)
     return cases
 
 
